@@ -174,6 +174,12 @@ func c18sScenario(r *vk.Run, v c18sVariant, bound int) vsched.Scenario {
 	const P = "C18"
 	return vsched.Scenario{Name: v.Name, Bound: bound, MinOutcomes: 3, Horizon: 20000, Body: func(x *vsched.X) {
 		x.BackgroundSetup()
+		// Free-running -race pass (no scheduler): grpc waits for the retry backoff
+		// timer with clientStream.mu held, and a goroutine blocked in a native
+		// sync.Mutex.Lock is not "durably blocked" for testing/synctest, so the
+		// bubble's clock could never advance.  There the failures carry pushback 0
+		// (timer due at once, no clock advance needed) in every scenario.
+		free := !vsched.Active()
 		w := &c18sWorld{}
 		ctx, cancel := context.WithCancel(context.Background())
 		var (
@@ -266,11 +272,24 @@ func c18sScenario(r *vk.Run, v c18sVariant, bound int) vsched.Scenario {
 			x.Go("sender", sender)
 			x.Go("receiver", receiver)
 		}
+		// await parks the server thread until cond holds: a scheduling point with an
+		// enabledness predicate under the explorer, a cheap virtual-time poll in the
+		// free-running -race pass (where vsched's own spin would burn a million
+		// iterations per virtual second of retry backoff).
+		await := func(site string, cond func() bool) {
+			if vsched.Active() {
+				vsched.Point(vsched.Op{Kind: vsched.OpUser, Site: site, Enabled: cond})
+				return
+			}
+			for !cond() {
+				time.Sleep(time.Millisecond)
+			}
+		}
 		x.Go("server", func() {
 			for k := 1; k <= v.Failures; k++ {
 				if k > 1 {
 					// wait for the retry attempt to reach the server
-					vsched.Point(vsched.Op{Kind: vsched.OpUser, Site: "server: await retry attempt", Enabled: func() bool { return len(w.attempts()) >= k }})
+					await("server: await retry attempt", func() bool { return len(w.attempts()) >= k })
 				}
 				as := w.attempts()
 				a := as[k-1]
@@ -280,19 +299,19 @@ func c18sScenario(r *vk.Run, v c18sVariant, bound int) vsched.Scenario {
 				vsched.Observe("server fails attempt %d having received %s", k, a)
 				h := append([][2]string{}, c18sRespHdr...)
 				h = append(h, [2]string{"grpc-status", "14"}, [2]string{"grpc-message", "scripted"})
-				if v.Pushback {
+				if v.Pushback || free {
 					h = append(h, [2]string{"grpc-retry-pushback-ms", "0"})
 				}
 				a.peer.WriteHeaders(a.stream, h, true)
 			}
 			// the attempt after the scripted failures is answered OK once it was half-closed
-			vsched.Point(vsched.Op{Kind: vsched.OpUser, Site: "server: await half-close of the last attempt", Enabled: func() bool {
+			await("server: await half-close of the last attempt", func() bool {
 				mu.Lock()
 				g := gaveUp
 				mu.Unlock()
 				as := w.attempts()
 				return g || (len(as) > v.Failures && as[len(as)-1].es)
-			}})
+			})
 			mu.Lock()
 			g := gaveUp
 			mu.Unlock()
@@ -423,13 +442,14 @@ func TestVerif_C18_RetrySched(t *testing.T) {
 	const P = "C18"
 	r := vk.Start(t, "c18_retry_sched", "exploration", P)
 	defer r.Finish()
-	b := r.Pick(2, 3)
-	r.Rule(P, fmt.Sprintf("every schedule with at most %d preemptions (quick 2, thorough 3) of {sender: SendMsg(m1), SendMsg(m2), CloseSend; receiver: RecvMsg loop (or Header() first); server: trailers-only UNAVAILABLE on attempt 1 (and 2, optionally with pushback 0), OK on the last attempt after its half-close} on the instrumented real clientStream of a real ClientConn (retry policy maxAttempts 3); scenarios vary the number of retries, pushback, the receiver's first call, the stream kind and the thread order (= the default schedule); non-trivial = executions deviating from the default schedule; outcomes = what each failed attempt had received when it was failed", b))
+	b := r.Pick(2, 4)
+	r.Rule(P, fmt.Sprintf("every schedule with at most %d preemptions (quick 2, thorough 4) of {sender: SendMsg(m1), SendMsg(m2), CloseSend; receiver: RecvMsg loop (or Header() first); server: trailers-only UNAVAILABLE on attempt 1 (and 2, optionally with pushback 0), OK on the last attempt after its half-close} on the instrumented real clientStream of a real ClientConn (retry policy maxAttempts 3); scenarios vary the number of retries, pushback, the receiver's first call, the stream kind and the thread order (= the default schedule); non-trivial = executions deviating from the default schedule; outcomes = what each failed attempt had received when it was failed", b))
 	r.Assume(P, "scheduling points are the synchronisation operations of the instrumented root package (vsync/vatomic, channel statements, selects); internal/transport and the raw peer are not instrumented and run to quiescence between managed steps (synctest); a managed thread blocked natively inside the transport is resumed by the transport, not by the explorer; the retry backoff is passed by advancing virtual time when nothing is enabled")
 	scs := []vsched.Scenario{
 		c18sScenario(r, c18sVariant{Name: "1retry/recv-first/bidi", Failures: 1, Receiver: "recv", ServerStrm: true, RecvFirst: true}, b),
 		c18sScenario(r, c18sVariant{Name: "1retry/send-first/client-stream", Failures: 1, Receiver: "recv", ServerStrm: false, RecvFirst: false}, b),
 		c18sScenario(r, c18sVariant{Name: "2retries-pushback/recv-first/bidi", Failures: 2, Pushback: true, Receiver: "recv", ServerStrm: true, RecvFirst: true}, b),
+		c18sScenario(r, c18sVariant{Name: "2retries-backoff/send-first/client-stream", Failures: 2, Receiver: "recv", ServerStrm: false, RecvFirst: false}, b),
 		c18sScenario(r, c18sVariant{Name: "1retry/header-first/bidi", Failures: 1, Receiver: "header", ServerStrm: true, RecvFirst: true}, b),
 	}
 	vsched.RunScenarios(t, r, []string{P}, scs)
